@@ -186,7 +186,9 @@ def one_function(ctx, spec):
     b2 = dict(base, shadowed_refs=er.shadowed_hits > 0)
     # round-trip expectation through unparse for a like-for-like dump
     exp_body = ast.parse("\n".join(ast.unparse(s) for s in exp_body)).body if exp_body else []
-    compare_bodies(ctx, b2, replay, exp_body, strip_doc(call.body), "__call__")
+    # (__call__ carries no docstring of its own: a leading string there is a statement of the body, unless there is one more)
+    call_body = strip_doc(call.body) if len(call.body) == len(exp_body) + 1 else list(call.body)
+    compare_bodies(ctx, b2, replay, exp_body, call_body, "__call__")
     # symtable cross-check of the reference: which nested scopes bind a parameter name
     try:
         st = symtable.symtable(spec.src, "<gen>", "exec")
